@@ -43,7 +43,21 @@ var timeNowRe = regexp.MustCompile(`\btime\.Now\(\)`)
 var timeSinceRe = regexp.MustCompile(`\btime\.Since\(`)
 
 // nativeReplay runs the harness as an ordinary Go test with the model's values.
+// nativeReplay retries a passing native run a few times: Go's map iteration order
+// is random, and a counterexample may depend on it.
 func nativeReplay(repo, verifDir, cfgDir string, cfg Config, rc RunCfg, replayPath string) (bool, string) {
+	var ok bool
+	var why string
+	for i := 0; i < 4; i++ {
+		ok, why = nativeReplayOnce(repo, verifDir, cfgDir, cfg, rc, replayPath)
+		if ok || why != "native run passed" {
+			return ok, why
+		}
+	}
+	return ok, why
+}
+
+func nativeReplayOnce(repo, verifDir, cfgDir string, cfg Config, rc RunCfg, replayPath string) (bool, string) {
 	raw, err := os.ReadFile(replayPath)
 	if err != nil {
 		return false, err.Error()
